@@ -1,8 +1,9 @@
 (* Extraction of the firewall life-cycle model for the C04 correspondence
    driver.  ExtrOcamlBasic only; no Extract Constant / Extract Inductive of our own. *)
 From Coq Require Import ExtrOcamlBasic.
-From SV Require Import Lib.Bytes Lib.ExtractBase Model.FwLife Model.FwLog.
+From SV Require Import Lib.Bytes Lib.ExtractBase Model.FwLife Model.FwLog Model.FwEnv.
 Extraction "c04_model.ml" extract_anchor exec parse_cmd argv pfop_stdin join_lines session
   k_empty chain_in_listing
   chain_in_output listing
-  sessionL log_call log_swallows subclass env_once env_from env_ok.
+  sessionL log_call log_swallows subclass env_once env_from env_ok
+  session_e wenv_none session_sig_asfound.
